@@ -171,4 +171,59 @@ pub fn run(rec: &mut Recorder, w: &mut World, tier: &str, seed: u64) {
             if hi == 0 { rec.sample(format!("domains={} {}", with_dom, descr.iter().take(8).cloned().collect::<Vec<_>>().join(" ; "))); }
         }
     }
+
+    // ---- directed histories with the switches and components moved: the queries and enforcement must agree again at every
+    //      point where the graph has been rebuilt from the stored rules ----
+    let k = ks.iter().find(|k| k.name == "rbac").unwrap().clone();
+    let m = model_of(&k, E_ALLOW, false, "", false);
+    let dm = ["t1".to_string(), "t2".to_string()];
+    let n_dir = (if tier == "thorough" { 40 } else { 8 }) * rec.budget as usize;
+    let read_state = |rec: &mut Recorder, w: &mut World| -> St {
+        let pol = rec.exec(w, "e.pol"); let parts: Vec<&str> = pol.split(' ').collect();
+        St { p: dec_lists(parts[0]).into_iter().map(|r| r[2..].to_vec()).collect(), g: dec_lists(parts[1]).into_iter().map(|r| r[2..].to_vec()).collect() }
+    };
+    for it in 0..n_dir { for variant in 0..4usize {
+        rec.begin();
+        new_enforcer(rec, w, &m, "memory", &[], "", false);
+        let mut descr: Vec<String> = vec![];
+        let mut run = |rec: &mut Recorder, w: &mut World, descr: &mut Vec<String>, line: String| { let o = rec.exec(w, &line); descr.push(format!("{} -> {}", line.replace('\t', " "), o)); };
+        // a small hierarchy with permissions on the roles
+        let u = NAMES[rng.below(3)]; let r1 = NAMES[3 + rng.below(2)]; let r2 = NAMES[5 + rng.below(2)];
+        run(rec, w, &mut descr, MOp::Add("g".into(), "g".into(), sv(&[u, r1])).line());
+        if it % 2 == 1 { run(rec, w, &mut descr, MOp::Add("g".into(), "g".into(), sv(&[r1, r2])).line()); }
+        run(rec, w, &mut descr, MOp::Add("p".into(), "p".into(), sv(&[r1, "d1", "read"])).line());
+        run(rec, w, &mut descr, MOp::Add("p".into(), "p".into(), sv(&[r2, "d2", "write"])).line());
+        let st = read_state(rec, w); check_state(rec, w, &st, false, &dm, &descr.join(" ; "));
+        match variant {
+            0 => { // everything cleared, a permission of the role stored again
+                run(rec, w, &mut descr, "e.clear".into());
+                run(rec, w, &mut descr, MOp::Add("p".into(), "p".into(), sv(&[r1, "d1", "read"])).line());
+            }
+            1 => { // a reload from a store without grouping rules
+                run(rec, w, &mut descr, format!("e.setadapter\tmemory\t{}\t", enc_lists(&[sv(&["p", "p", r1, "d1", "read"]), sv(&["p", "p", u, "d2", "read"])])));
+            }
+            2 => { // links built by hand: the last grouping rules go while building is off, then an explicit rebuild
+                run(rec, w, &mut descr, "e.auto\tbuild\tfalse".into());
+                let st0 = read_state(rec, w);
+                for g in &st0.g { run(rec, w, &mut descr, MOp::Rm("g".into(), "g".into(), g.clone()).line()); }
+                run(rec, w, &mut descr, "e.build".into());
+            }
+            _ => { // another role manager installed while building is off, then role changes and explicit rebuilds
+                run(rec, w, &mut descr, "e.auto\tbuild\tfalse".into());
+                run(rec, w, &mut descr, "e.setrm".into());
+                run(rec, w, &mut descr, "e.build".into());
+                let st1 = read_state(rec, w); check_state(rec, w, &st1, false, &dm, &descr.join(" ; "));
+                run(rec, w, &mut descr, MOp::Rm("g".into(), "g".into(), sv(&[u, r1])).line());
+                let other = NAMES[(rng.below(3) + 1) % 3];
+                run(rec, w, &mut descr, MOp::Add("g".into(), "g".into(), sv(&[other, r1])).line());
+                run(rec, w, &mut descr, "e.build".into());
+                if it % 2 == 0 { let st2 = read_state(rec, w); check_state(rec, w, &st2, false, &dm, &descr.join(" ; "));
+                    run(rec, w, &mut descr, "e.auto\tbuild\ttrue".into());
+                    run(rec, w, &mut descr, MOp::Add("g".into(), "g".into(), sv(&[u, r2])).line()); }
+            }
+        }
+        let st = read_state(rec, w); check_state(rec, w, &st, false, &dm, &descr.join(" ; "));
+        rec.count(&format!("directed:switches-and-components:{}", variant));
+        rec.nontrivial_case(&format!("directed|{}|{}", variant, descr.join("|")));
+    } }
 }
